@@ -4,16 +4,19 @@
    finished behaviour as one JSON object. *)
 EXTENDS ResponseEmit, Json
 
-CONSTANTS Ifaces, Codes, Methods, TextLens, DataLens, MediaLens, SseCounts, PresetCLs, Tier
+CONSTANTS Ifaces, Codes, Methods, TextLens, DataLens, MediaLens, SseScripts, PresetCLs, Tier
 
 (* cfg files cannot hold negative numbers: length sets are definitions, -1 = not set *)
 L_5   == {-1, 5}
 L_05  == {-1, 0, 5}
 L_04  == {-1, 0, 4}
 L_7   == {-1, 7}
-S_2   == {-1, 2}
-S_02  == {-1, 0, 2}
-S_no  == {-1}
+(* SSE emitter scripts: <<-1>> = no emitter; otherwise one entry per item, 1 = event, 0 = None (ping).
+   Pings first, in the middle, last and several in a row. *)
+NoSse == <<-1>>
+S_no  == {NoSse}
+S_q   == {NoSse, <<1, 1>>, <<0, 1, 0>>, <<1, 0, 0, 1>>}
+S_all == {NoSse, <<1, 0, 0, 1>>} \cup UNION {[1..n -> {0, 1}] : n \in 0..3}
 CL_3  == {-1, 3}
 CL_no == {-1}
 L_no  == {-1}
@@ -22,22 +25,26 @@ Registered == {100, 101, 200, 201, 204, 304, 404, 500}      \* codes with a regi
 FormsOf(code) == IF code \in Registered THEN {"int", "line", "enum", "xline"} ELSE {"int", "xline"}
 
 (* stream options <<kind, block lengths>> *)
-QuickStreams == {<<"none", <<>>>>, <<"iter", <<5, 6>>>>, <<"file", <<5>>>>, <<"file", <<>>>>, <<"plain", <<5>>>>}
-FullStreams  == {<<"none", <<>>>>} \cup ({"iter", "file", "plain"} \X {<<>>, <<5>>, <<5, 6>>, <<6, 5, 7>>})
+(* 0 = an empty block (not for file-likes: there it is the end), -1 = None (ASGI only, see MCInit) *)
+QuickStreams == {<<"none", <<>>>>, <<"iter", <<5, 6>>>>, <<"iter", <<0, 5>>>>, <<"iter", <<5, -1, 6>>>>,
+                 <<"file", <<5>>>>, <<"file", <<>>>>, <<"file", <<-1, 5, -1>>>>, <<"plain", <<5>>>>, <<"plain", <<-1, 5>>>>}
+FullStreams  == {<<"none", <<>>>>}
+                \cup ({"iter", "file", "plain"} \X {<<>>, <<5>>, <<5, 6>>, <<6, 5, 7>>, <<-1, 5>>, <<5, -1, 6>>, <<5, -1>>})
+                \cup ({"iter", "plain"} \X {<<0, 5>>, <<5, 0>>})
 TinyStreams  == {<<"none", <<>>>>, <<"iter", <<5>>>>}
 Streams == CASE Tier = "quick" -> QuickStreams [] Tier = "tiny" -> TinyStreams [] OTHER -> FullStreams
 
 Case(iface, code, form, method, text, data, media, st, sse, cl, ct, fk, fa) ==
     [iface |-> iface, code |-> code, form |-> form, method |-> method, text |-> text, data |-> data,
-     media |-> media, stream |-> st[1], chunks |-> st[2], sse |-> sse, cl |-> cl, ct |-> ct, fk |-> fk, fa |-> fa, err |-> -1]
+     media |-> media, stream |-> st[1], chunks |-> st[2], sse |-> (IF sse = NoSse THEN -1 ELSE Len(sse)), sk |-> (IF sse = NoSse THEN <<>> ELSE sse), cl |-> cl, ct |-> ct, fk |-> fk, fa |-> fa, err |-> -1]
 
 (* sends a fault-free emission makes (the response start is send 0) *)
 NSends(b) ==
     1 + (IF IsAsgi(b)
          THEN (IF Bodiless(b) THEN 1
-               ELSE CASE Chosen(b) = "sse" -> b.sse + 1 [] Chosen(b) = "stream" -> Len(b.chunks) + 1 [] OTHER -> 1)
+               ELSE CASE Chosen(b) = "sse" -> b.sse + 1 [] Chosen(b) = "stream" -> Len(LiveChunks(b)) + 1 [] OTHER -> 1)
          ELSE (IF Bodiless(b) THEN 0
-               ELSE CASE Chosen(b) = "stream" -> Len(b.chunks) [] Chosen(b) = "none" -> 0 [] OTHER -> 1))
+               ELSE CASE Chosen(b) = "stream" -> Len(LiveChunks(b)) [] Chosen(b) = "none" -> 0 [] OTHER -> 1))
 (* faults do not interact with how the status was written or with preset headers: fault points are
    explored for the plain-header, int-status cases only *)
 FaultBase(b) == b.form = "int" /\ b.cl = -1 /\ ~b.ct
@@ -50,15 +57,16 @@ RenderBase(b) == b.form = "int" /\ (Tier = "quick" => b.code \in {200, 204})
 FaultsOf(b) ==
     {<<"none", 0>>}
     \cup (IF ~Bodiless(b) /\ Streamed(b)
-          THEN {<<"stream", j>> : j \in 0..(IF Chosen(b) = "sse" THEN b.sse ELSE Len(b.chunks))} ELSE {})
+          THEN {<<"stream", j>> : j \in 0..(IF Chosen(b) = "sse" THEN b.sse ELSE Len(LiveChunks(b)))} ELSE {})
     \cup {<<"send", j>> : j \in (IF IsAsgi(b) THEN 0 ELSE 1)..(NSends(b) - 1)}
 
 MCInit ==
     \E iface \in Ifaces, code \in Codes, method \in Methods :
     \E form \in FormsOf(code), text \in TextLens, data \in DataLens, media \in MediaLens, st \in Streams :
-    \E sse \in (IF iface = "asgi" THEN SseCounts ELSE {-1}), cl \in PresetCLs, ct \in BOOLEAN :
+    \E sse \in (IF iface = "asgi" THEN SseScripts ELSE {NoSse}), cl \in PresetCLs, ct \in BOOLEAN :
        LET b == Case(iface, code, form, method, text, data, media, st, sse, cl, ct, "none", 0)
-       IN  /\ (Tier = "quick" /\ sse >= 0) => st[1] = "none"          \* quick tier: thinner cross product
+       IN  /\ (\E i \in DOMAIN st[2] : st[2][i] = -1) => iface = "asgi"      \* on WSGI every block is bytes
+           /\ (Tier = "quick" /\ sse # NoSse) => st[1] = "none"          \* quick tier: thinner cross product
            /\ (Tier = "quick" /\ iface = "wsgifw") => st[1] = "file"
            /\ \E f \in (IF FaultBase(b) THEN FaultsOf(b) ELSE {<<"none", 0>>})
                         \cup (IF RenderBase(b) THEN {<<"render", 1>>, <<"render", 2>>} ELSE {}) : Start([b EXCEPT !.fk = f[1], !.fa = f[2]])
